@@ -1,14 +1,14 @@
 package s0250
 
 type G2 struct {
-	F1x0x0 *int64
+	F0x1x0 int64
 }
 
 type G1 struct {
-	F1x0 *G2
+	F0x0 int32
+	F0x1 G2
 }
 
 type T struct {
-	F0 int32
-	F1 G1
+	F0 *G1
 }
